@@ -33,10 +33,12 @@ EXTENDS Mem, TLC
 
 CONSTANTS NT, MaxOps, MaxOps0, Ord,   \* MaxOps0: enter / leave cycles of thread 0, MaxOps: of every other thread
           HeadBump,     \* TRUE: update_tail_stamp takes the stamp of head only after invalidating pending pushes with a CAS on head->prev (code)
-          Recheck,      \* TRUE: push re-reads head->prev after publishing its pending stamp (code)
-          ClearPending, \* TRUE: helpers complete a pending stamp with a CAS (code); FALSE: they move on without helping
+          Recheck,      \* TRUE: push re-reads head->prev after publishing its pending stamp (code); FALSE is exploratory: no property here depends on it
+                        \* within 2 threads x (2, 1) regions (2.5 M states) - the insertion CAS fails anyway when head->prev has changed
+          ClearPending, \* TRUE: helpers complete a pending stamp with a CAS (code); FALSE: they move on without helping (a leaving thread then waits
+                        \* for the pusher: SoloBound of StampItQueueSolo is violated - seeded change c16_5)
           Exits,        \* TRUE: threads exit after a region and later threads adopt the control blocks they abandoned (thread_block_list)
-          MarkChecksStamp \* TRUE: mark_next gives up when the stamp of the block has changed (code); FALSE: marks regardless
+          MarkChecksStamp \* TRUE: mark_next gives up when the stamp of the block has changed (code); FALSE: marks regardless (exploratory)
 
 StampInc == 4
 PendingPush == 2
